@@ -500,7 +500,7 @@ func c01Case(c *fw.Ctx, k *fw.K, i int) {
 	k.Count("bases_accepted")
 	genuineFP, okfp := c01Fingerprint(b.in)
 	if !okfp {
-		fw.Bug("cannot fingerprint the genuine base")
+		fw.LibFail("genuine-base-not-parseable", "the library cannot parse the genuine base it just accepted")
 	}
 	// (a) byte sweeps
 	sweep := func(where string, buf []byte, stride int, set func(in *c01Input, v []byte)) {
